@@ -1,16 +1,36 @@
 #!/bin/sh
-# usage: seed_check.sh [seed-id ...]  -- apply each seeded patch to /repo, run the
-# property's quick check against /repo, undo the patch straight afterwards.
+# usage: seed_check.sh [seed-id ...]  -- apply each seeded patch to a SCRATCH COPY of
+# /repo's working tree (VERIF_REPO=<copy>), run the property's quick check against the
+# copy, remove the copy and its builds straight afterwards.
+#
+# /repo itself is never touched.  The first version of this tool patched /repo in place
+# and undid the patch after the check; a session that ended while a check was running
+# left the seeded change c18-pair-index-decoded-with-wrong-width-r5 applied in /repo,
+# where it was committed as if it were part of the tree (DESIGN.md section 10).
 cd /verif
-[ -z "$(git -C /repo status --porcelain --untracked-files=no)" ] || { echo "/repo is dirty"; exit 2; }
 IDS="$@"; [ -z "$IDS" ] && IDS=$(ls seeded | grep -v RESULTS)
+BASE=/var/tmp/enspara-verif/seedcheck.$$
+cleanup() {
+  [ -d "$BASE" ] && /venv/bin/python -c "
+import sys; sys.path.insert(0, '/verif')
+from vf import build
+build.remove_builds_of('$BASE/wt')" 2>/dev/null
+  rm -rf "$BASE"
+}
+trap cleanup EXIT
+trap 'exit 130' INT TERM HUP
+before=$(git -C /repo status --porcelain --untracked-files=no; git -C /repo rev-parse HEAD)
 for id in $IDS; do
   prop=$(python3 -c "import json;print(json.load(open('seeded/$id/meta.json'))['property'])")
-  git -C /repo apply /verif/seeded/$id/patch.diff || { echo "$id: patch does not apply"; continue; }
-  out=$(VF_EVIDENCE_DIR=/verif/out/evidence-scratch ./check $prop --tier quick 2>&1); rc=$?
-  git -C /repo checkout -- .
+  cleanup; mkdir -p "$BASE/wt"
+  cp /repo/setup.py "$BASE/wt/" && rsync -a --exclude __pycache__ --exclude '*.so' \
+     --exclude '*.c' --exclude build /repo/enspara "$BASE/wt/" || { echo "$id: copy failed"; continue; }
+  (cd "$BASE/wt" && patch -p1 -s --no-backup-if-mismatch < /verif/seeded/$id/patch.diff) \
+     || { echo "$id: patch does not apply"; continue; }
+  out=$(VERIF_REPO="$BASE/wt" VF_EVIDENCE_DIR=/verif/out/evidence-scratch ./check $prop --tier quick 2>&1); rc=$?
   nv=$(echo "$out" | grep -c '^VIOLATION')
   keys=$(echo "$out" | grep '^VIOLATION' | sed 's/.*key=\([^ ]*\).*/\1/' | sort -u | head -4 | tr '\n' ' ')
   echo "$id | $prop | rc=$rc | $(echo "$out" | tail -1 | sed 's/.*violations=\([0-9]*\).*/\1 violations/') | $keys"
 done
-[ -z "$(git -C /repo status --porcelain --untracked-files=no)" ] && echo "/repo clean again"
+after=$(git -C /repo status --porcelain --untracked-files=no; git -C /repo rev-parse HEAD)
+[ "$before" = "$after" ] && echo "/repo untouched" || echo "WARNING: /repo changed while this ran"
